@@ -351,7 +351,7 @@ func (g *G) windowSpec() ([]Tok, *ast.WindowSpec) {
 		t = cat(t, g.kw("ORDER", "BY"), commaJoin(ots))
 		w.OrderBy = ons
 	}
-	if g.chance(40, "frame") {
+	if !g.F.NoWindowFrame && g.chance(40, "frame") {
 		g.use("window_frame")
 		ft := "ROWS"
 		if g.chance(40, "range") {
